@@ -17,6 +17,7 @@ package main
 
 import (
 	"fmt"
+	"math/rand"
 	"sort"
 	"strings"
 	"time"
@@ -167,7 +168,75 @@ func genMapping(seed int64, idx int) *Case {
 		c.Steps = append(c.Steps, st)
 	}
 	c.Note = fmt.Sprintf("%dx%d family %d mode %d", cnt[0], cnt[1], family, mode)
+	if idx%4 == 3 {
+		genMappingChurn(c, rnd, cnt)
+	}
 	return c
+}
+
+// genMappingChurn (every fourth case): the assignment must survive what happens to the handlers. All calls in
+// sequence. (1) The first start of one collection fails at the connection check of its new handler (message queue
+// down); it is started again at the end. (2) A collection that is the only one read from its source channels is
+// stopped; then a NEW collection is offered that pairs one of those source channels with ANOTHER downstream channel.
+// A pair once recorded must still be there afterwards (and a failed start must not have recorded one that a later
+// start then replaces).
+func genMappingChurn(c *Case, rnd *rand.Rand, cnt [2]int) {
+	for i := range c.Steps {
+		c.Steps[i].Async, c.Steps[i].DelayMs = false, 0
+	}
+	// (1) a failing first start
+	f := rnd.Intn(len(c.Colls))
+	var steps []Step
+	// (the reader reports the error, its task is paused and QuitRead stops every collection it had tried to start)
+	steps = append(steps, Step{Kind: sStartColl, Coll: f, MQDown: true}, Step{Kind: sStopColl, Coll: f})
+	for _, st := range c.Steps {
+		if st.Coll != f {
+			steps = append(steps, st)
+		}
+	}
+	// (2) stop a collection that is alone on its source channels, offer a new one on another downstream channel
+	use := map[string]int{}
+	for ci, col := range c.Colls {
+		if ci == f {
+			continue
+		}
+		for _, sh := range col.Shards {
+			use[sh.SrcP]++
+		}
+	}
+	note := ""
+	for ci, col := range c.Colls {
+		if ci == f {
+			continue
+		}
+		alone := true
+		for _, sh := range col.Shards {
+			if use[sh.SrcP] != 1 {
+				alone = false
+			}
+		}
+		if !alone || cnt[1] < 2 {
+			continue
+		}
+		sh := col.Shards[0]
+		var other string
+		for j := 0; j < cnt[1]; j++ {
+			if dstPName(j) != sh.DstP {
+				other = dstPName(j)
+				break
+			}
+		}
+		nc := CollSpec{SrcID: col.SrcID + 900, DstID: col.DstID + 900, Name: "m_z", DB: "default", PreDownstream: true, CreateTs: col.CreateTs}
+		nc.Shards = []ShardSpec{{SrcP: sh.SrcP, SrcV: vName(sh.SrcP, nc.SrcID, 0), DstP: other, DstV: vName(other, nc.DstID, 0)}}
+		nc.Parts = []PartSpec{{Name: "_default", SrcID: nc.SrcID*10 + 1, DstID: nc.DstID*10 + 1, PreDownstream: true, CreateTs: nc.CreateTs}}
+		c.Colls = append(c.Colls, nc)
+		steps = append(steps, Step{Kind: sStopColl, Coll: ci}, Step{Kind: sStartColl, Coll: len(c.Colls) - 1})
+		note = fmt.Sprintf(" + stop %s (alone on %s) then %s -> %s", col.Name, sh.SrcP, sh.SrcP, other)
+		break
+	}
+	steps = append(steps, Step{Kind: sStartColl, Coll: f})
+	c.Steps = steps
+	c.Note += fmt.Sprintf(" churn: first start of %s with the message queue down%s", c.Colls[f].Name, note)
 }
 
 type c16mStats struct {
